@@ -19,42 +19,64 @@ var c12iupac = []struct {
 	{'R', []int{0, 2}}, {'Y', []int{1, 3}}, {'N', []int{0, 1, 2, 3}},
 }
 
-// minimum number of changes when every tip may take any state of its set
+// minimum number of changes when every tip may take any state of its set:
+// all assignments of the inner nodes; a tip costs a change exactly when the
+// state of its neighbour is not in its set
 func c12bruteSets(t *tree.Tree, tipSet map[*tree.Node][]int, k int) int {
-	nodes := t.Nodes()
+	var inner []*tree.Node
+	for _, nd := range t.Nodes() {
+		if !nd.Tip() {
+			inner = append(inner, nd)
+		}
+	}
 	edges := t.Edges()
 	assign := map[*tree.Node]int{}
 	total := 1
-	for range nodes {
+	for range inner {
 		total *= k
+	}
+	allowed := func(tip *tree.Node, s int) bool {
+		for _, x := range tipSet[tip] {
+			if x == s {
+				return true
+			}
+		}
+		return false
 	}
 	best := 1 << 30
 	for code := 0; code < total; code++ {
 		c := code
-		ok := true
-		for _, nd := range nodes {
-			s := c % k
+		for _, nd := range inner {
+			assign[nd] = c % k
 			c /= k
-			assign[nd] = s
-			if nd.Tip() {
-				in := false
-				for _, x := range tipSet[nd] {
-					if x == s {
-						in = true
-					}
-				}
-				if !in {
-					ok = false
-				}
-			}
-		}
-		if !ok {
-			continue
 		}
 		cost := 0
 		for _, e := range edges {
-			if assign[e.Left()] != assign[e.Right()] {
-				cost++
+			l, r := e.Left(), e.Right()
+			switch {
+			case l.Tip() && r.Tip():
+				// (two-tip tree: no inner node)
+				common := false
+				for _, x := range tipSet[l] {
+					if allowed(r, x) {
+						common = true
+					}
+				}
+				if !common {
+					cost++
+				}
+			case r.Tip():
+				if !allowed(r, assign[l]) {
+					cost++
+				}
+			case l.Tip():
+				if !allowed(l, assign[r]) {
+					cost++
+				}
+			default:
+				if assign[l] != assign[r] {
+					cost++
+				}
 			}
 		}
 		if cost < best {
